@@ -181,12 +181,17 @@ class C09(Spec):
     technique = ('Lean 4 proof: Int_Cmp / Float_Cmp / eq..le translated from the C source on every run (C-expression to BitVec translator), '
                  'theorems over all 2^128 pairs via toInt+omega; lexicographic lifting of any lawful comparison by induction; '
                  'differential check of the model against the real cmp on boundary grids, random pairs and triples, plus a direct reference order in C')
-    level_text = ('Theorems C09_int (sign of the GENERATED Int_Cmp = order of the 64-bit integers, all 2^128 pairs, hence a strict lawful order), '
-                  'C09_bytes (strcmp/memcmp sign = lexicographic order of unsigned bytes, strict lawful), C09_lex / C09_tree (any lawful element comparison '
-                  'lifts to Array/List/Tuple and to Tree entries key-then-value, independent of the container kind), C09_preds (eq neq gt lt ge le as GENERATED '
-                  'from Cmp.c are exactly the predicates of cmp), C09_float_under_SubSign (Float_Cmp as GENERATED is the numeric order of non-NaN doubles '
-                  'under the stated IEEE hypothesis), C09_val (cmp on every well-kinded nested value is a lawful order, zero only on equal content). '
-                  'The model is tied to the real functions by running boundary grids and random pairs/triples on both.')
+    level_text = ('Theorems (Lean 4, no sorry): C09_int — the sign of Int_Cmp as TRANSLATED from src/Num.c on every run equals the order of the two 64-bit integers for all '
+                  '2^128 pairs (toInt + omega), hence C09_int_lawful: antisymmetric, transitive, reflexive, 0 only for equal values; C09_bytes — strcmp/memcmp sign is the '
+                  'lexicographic order of unsigned bytes, lawful and strict; C09_lex / C09_lex_eq / C09_lex_shape / C09_tree — any lawful element comparison lifts to '
+                  'Array/List/Tuple and to Tree entries (key then value), 0 exactly on elementwise-equal sequences, independent of container kind (C09_lex_content); '
+                  'C09_preds — eq neq gt lt ge le as TRANSLATED from src/Cmp.c are exactly =0 ≠0 >0 <0 ≥0 ≤0 of cmp, for every comparison function; '
+                  'C09_float_under_SubSign — Float_Cmp as TRANSLATED is the numeric order of non-NaN doubles under the stated IEEE hypothesis; '
+                  'C09_val / C09_val_float_free — cmp on every well-kinded nested value (any depth) is a lawful order, 0 exactly on equal content, unconditionally when no Float occurs; '
+                  'C09_tree_order / C09_tree_finds_every_key — a Tree built under a lawful cmp iterates strictly descending and holds every key set; '
+                  'C09_int_truncating_refuted — the pre-fix subtract-and-truncate Int_Cmp returns 0 on (0, 2^32) and is not antisymmetric; C09_loops_as_modelled — the C loop '
+                  'texts equal the texts the model mirrors. The model is tied to the real functions by running boundary grids and random pairs/triples on both, '
+                  'and the real results are checked against an independent reference order in C.')
     level_note = ('partial for Float: the hypothesis SubSign (sign of the double difference = sign of the real difference, non-NaN) is tested on the '
                   'grid (denormals, signed zeros, infinities, extremes, random bits), never proved; Lean does not model IEEE-754. '
                   'Trusted: Lean kernel; the C-expression translator translate/g_cmp.py (machine integer semantics of `-`, casts, signed `<`); '
@@ -220,7 +225,7 @@ class C09(Spec):
         lines += [f'cmp {tt(a)} {tt(b)}' for a in TYPE_NAMES for b in TYPE_NAMES]
         cs += chunks('grid_str_type', lines, 4000)
         # boundary triples (sampled) -----------------------------------------------------------------------------------
-        n_tri = (6000 if quick else 150000) * boost
+        n_tri = (8000 if quick else 200000) * boost
         lines = []
         for _ in range(n_tri):
             k = rng.choice('iiifffsst')
@@ -231,7 +236,7 @@ class C09(Spec):
             lines.append('tri ' + ' '.join(vals))
         cs += chunks('tri_boundary', lines, 3000)
         # ---- random scalar pairs and triples
-        n_pairs = (60000 if quick else 1500000) * boost
+        n_pairs = (100000 if quick else 2500000) * boost
         lines = []
         for _ in range(n_pairs):
             k = rng.choice('iiiifffsst')
@@ -251,7 +256,7 @@ class C09(Spec):
             else: b = rand_scalar(rng, k, B)
             lines.append(f'cmp {a} {b}')
         cs += chunks('rand_pairs', lines, 5000)
-        n_tr = (20000 if quick else 500000) * boost
+        n_tr = (30000 if quick else 800000) * boost
         lines = []
         for _ in range(n_tr):
             k = rng.choice('iiifffsst')
@@ -260,7 +265,7 @@ class C09(Spec):
             lines.append('tri ' + ' '.join(vals))
         cs += chunks('rand_tri', lines, 4000)
         # ---- containers
-        n_c = (25000 if quick else 500000) * boost
+        n_c = (40000 if quick else 800000) * boost
         lines = []
         for _ in range(n_c):
             r = rng.random()
@@ -283,7 +288,7 @@ class C09(Spec):
                 lines.append(f'cmp p{ta}:{ba.hex()} p{tb}:{bb.hex()}')
         cs += chunks('containers', lines, 3000)
         # ---- Tree / Table keyed on boundary values, sort
-        n_k = (1200 if quick else 25000) * boost
+        n_k = (1500 if quick else 30000) * boost
         lines = []
         # every boundary key in one Tree/Table
         lines.append('keys ' + ' '.join(ti(v) for v in B))
@@ -305,6 +310,19 @@ class C09(Spec):
                 vals = [ts(rand_str(rng)) for _ in range(n)]
             lines.append(('keys ' if rng.random() < 0.6 else 'sort ') + ' '.join(vals))
         cs += chunks('keys_sort', lines, 400)
+        # ---- long sequences / strings that differ only at the very end (or are proper prefixes), every container combination
+        lines = []
+        for n in ([300, 1500] if quick else [300, 1500, 4000]):
+            base = [ti(rng.choice(B)) for _ in range(n)]
+            for ka in 'ALT':
+                for kb in 'ALT':
+                    var = list(base); r = rng.random()
+                    if r < 0.4: var[-1] = ti(rng.choice(B))
+                    elif r < 0.7: var = var[:-1]
+                    lines.append(f'cmp {seq_term(ka, base)} {seq_term(kb, var)}')
+            s1 = bytes(rng.choice([0x61, 0xff, 0x80]) for _ in range(n)); s2 = s1[:-1] + bytes([rng.choice([1, 0x7f, 0xff])])
+            lines += [f'cmp {ts(s1)} {ts(s2)}', f'cmp {ts(s1)} {ts(s1[:-1])}', f'cmp {ts(s1)} {ts(s1)}']
+        cs += chunks('long', lines, 12)
         # ---- a few ill-formed ops (both sides must refuse them identically)
         bad = ['cmp i1', 'cmp i1 s61', 'cmp f7ff8000000000000 f0000000000000000', 'cmp i9223372036854775808 i0', 'cmp s6100 s61',
                'cmp A2 i1 s61 A0', 'cmp A1 i1 R0', 'cmp tNoSuchType tInt', 'tri i1 i2', 'keys i1 s61', 'sort', 'cmp T1 p1:00000000 T0',
